@@ -107,6 +107,12 @@ def is_finished_table(ctx):
     return not bad, {"atoms": atoms, "rows": len(table), "mismatches": [(sorted(k for k, v in m[0].items() if v), m[1], m[2]) for m in bad[:4]]}
 
 
+# "reports that count" for the slice-to-slice call: its return-path accounting (C06), reported as C10.account
+INCLUDES = [
+    ("c06", "C10.slice-call", {"rules": ("C06.account.decode_from_to",)}, 6),
+]
+
+
 def run(ctx):
     crate = ctx.crate()
     R = "C10.who.exact-reads"
@@ -414,6 +420,52 @@ def run(ctx):
         names = [s_["pat"]["name"] for s_ in st[:2] if s_.get("k") == "LetStmt"]
         ctx.check(names == ["len", "cap"], RM, "decode_all_to_vec::snapshots-first", v["file"], "length and capacity are recorded first", observed=names)
     ctx.guard(RM, "multi", multi)
+
+    # ---- the slice-to-slice call parses a piece only if *exactly* enough bytes are there ---------------------------
+    RA = "C10.avail"
+
+    def avail():
+        """decode_from_to works on whatever slice it is handed: it must go on exactly when the next piece is complete —
+        3 bytes for a block header, content_size for its body, 4 for the checksum.  A stricter test (<= 3) stalls in
+        front of a complete frame whose last block is empty, a laxer one reads past the slice."""
+        from .. import booleval
+        b = ctx.hir(FD + "::decode_from_to")
+        ix = hq.Index(b)
+
+        def len_atoms(site):
+            out = set()
+            for p_ in ix.path_conditions(site):
+                if "core::slice::len(" in p_["cond"] and p_["kind"] in ("if", "else", "guard", "guard-else", "arm-guard", "while", "and-lhs", "or-lhs"):
+                    a_, pol = booleval.norm_atom(p_["cond"])
+                    out.add((a_, pol))
+            return out
+        rh = [x for x in hq.find(b["body"], lambda x: x.get("k") == "MethodCall" and x["name"] == "read_block_header")]
+        dc = [x for x in hq.find(b["body"], lambda x: x.get("k") == "MethodCall" and x["name"] == "decode_block_content")]
+        if len(rh) != 1 or len(dc) != 1:
+            raise Anchor("decode_from_to does not have one header read and one body decode")
+        src = ix.canon(hq.peel(rh[0]["args"][0]))
+        src = src[1:] if src.startswith("&") else src
+        src = src.replace("mut ", "", 1) if src.startswith("mut ") else src
+        ln = "core::slice::len(%s)" % src
+        hdr = ("(%s < 3)" % ln, False)
+        got = len_atoms(rh[0])
+        ctx.check(got == {hdr}, RA, "decode_from_to::header-iff-3-bytes", H.loc(b, rh[0]),
+                  "the block header is parsed exactly when at least 3 bytes are left (the header's size)", observed=sorted(got), expected=[hdr])
+        got2 = len_atoms(dc[0]) - {hdr}
+        ok = len(got2) == 1 and list(got2)[0][1] is False and list(got2)[0][0].startswith("(%s < (" % ln) and list(got2)[0][0].endswith(".content_size as usize))")
+        ctx.check(ok, RA, "decode_from_to::body-iff-content_size-bytes", H.loc(b, dc[0]),
+                  "the block body is decoded exactly when at least content_size bytes are left", observed=sorted(got2))
+        body_atoms = len_atoms(dc[0])
+        cs = [x for x in hq.find(b["body"], lambda x: x.get("k") == "Assign" and hq.field_chain(x["l"])[1][-1:] == ["check_sum"])]
+        four = ("(%s < 4)" % ln, False)
+        n = 0
+        for a in cs:
+            got3 = len_atoms(a)
+            n += 1
+            ctx.check(four in got3 and got3 - {four} <= body_atoms, RA, "decode_from_to::checksum-iff-4-bytes#%d" % n, H.loc(b, a),
+                      "the checksum is taken exactly when at least 4 bytes are left", observed=sorted(got3))
+        ctx.check(n == 2, RA, "decode_from_to::checksum-sites", b["file"], "two places take the checksum (after the last block, or alone in a later call)", observed=n)
+    ctx.guard(RA, "avail", avail)
 
 
 def T_diverges(n):
